@@ -74,16 +74,16 @@ theorem C18_collect_lookup (f : VFile) (h : f.WF) (hws : f.ws = false) (hz s : N
     model*, a single witness): versions 3,5; horizon 5; the lookup at 5 changes from 3 to
     nothing. Unreachable through the API. -/
 theorem C18_horizon_is_version_witness :
-    let f : VFile := { l := [⟨"k",0,1,3⟩, ⟨"k",0,2,5⟩], arr := [⟨"k",0,1,3⟩, ⟨"k",0,2,5⟩] }
-    f.lastBefore 5 = some ⟨"k",0,1,3⟩ ∧ (f.collectOld 5).2.lastBefore 5 = none := by
+    let f : VFile := { l := [⟨"k",0,1,3,none⟩, ⟨"k",0,2,5,none⟩], arr := [⟨"k",0,1,3,none⟩, ⟨"k",0,2,5,none⟩] }
+    f.lastBefore 5 = some ⟨"k",0,1,3,none⟩ ∧ (f.collectOld 5).2.lastBefore 5 = none := by
   intro f
   have hwf : f.WF := ⟨by unfold SortedSeq; decide, fun _ => rfl, by decide⟩
   rw [VFile.lastBefore_eq hwf rfl, VFile.lastBefore_eq (hwf.collectOld 5) rfl]
   decide
 
 /-- non-vacuity: a concrete non-trivial well-formed store -/
-example : ({ l := [⟨"k",0,1,3⟩, ⟨"k",0,2,5⟩, ⟨"k",0,3,9⟩],
-             arr := [⟨"k",0,1,3⟩, ⟨"k",0,2,5⟩, ⟨"k",0,3,9⟩] } : VFile).WF :=
+example : ({ l := [⟨"k",0,1,3,none⟩, ⟨"k",0,2,5,none⟩, ⟨"k",0,3,9,none⟩],
+             arr := [⟨"k",0,1,3,none⟩, ⟨"k",0,2,5,none⟩, ⟨"k",0,3,9,none⟩] } : VFile).WF :=
   ⟨by unfold SortedSeq; decide, fun _ => rfl, by decide⟩
 
 end FsDb.C18
